@@ -18,6 +18,11 @@
   and resolver events in the order the code produces them.  Deferred resolvers complete in the
   order given by a schedule (indices into the queue of outstanding tasks, submission order).
 
+  Meta fields (`__typename`, `__schema`, `__type`) and the fields of the introspection types are
+  ordinary nodes of the tree: `ResolutionContext.field_definition` returns the introspection
+  `Field`, `Executor.field_resolver` wraps its resolver with the runtime and the middlewares like
+  any other (`fieldResolver` below makes no distinction), so every theorem about fields covers them.
+
   Core Lean only (this file is linked into the driver).
 -/
 namespace PyGql.Instr
